@@ -121,6 +121,19 @@ META["C06"] = {
     "level_note": "trusts testing/synctest and the recording tracer; ledger conditions are written from the statement, not from the implementation",
 }
 
+META["C08"] = {
+    "budget": {"quick": 25, "thorough": 600},
+    "rule": "one run = generated schema + 1..2 handler bindings + a fault plan that puts a panic (error or non-error value) or a stall (beyond HandlerTimeout, or beyond HandlerTimeout+HandlerDeadline) at drawn handler positions of every class, singly and in sequences incl. inside the Exception handlers, with HandlerTimeout 10..200ms, deadline 1..10s, backoff 1..3s on the fake clock, driven by one caller; non-trivial = at least one fault fired; distinct = distinct plans",
+    "components": {"real": MACHINE_REAL, "stub": []},
+    "assumptions": [
+        "state clauses are evaluated at the end of the faulted transition (the Exception transition that follows is a transition of its own)",
+        "transitions re-entering an already active called Multi state and auto mutations are exempt from the rollback clause",
+    ],
+    "probes": ["fault-in-exit", "fault-in-enter", "fault-in-self", "fault-in-ss", "fault-in-anyenter", "fault-in-end", "fault-in-state", "fault-in-anystate", "fault-in-exception-handler", "deadline-path"],
+    "level_text": "seeded fault injection at every handler position: no panic reaches the caller, calls return within timeout+deadline+backoff+5s of fake time, panic => Canceled + Exception + message, timeout => Canceled + reported error, negotiation fault leaves states and ticks untouched, final fault rolls back exactly the unfinished finals, parity == activity, the machine executes a probe mutation afterwards",
+    "level_note": "trusts testing/synctest's fake clock for timeouts/deadlines/backoff and the recording handlers",
+}
+
 NOT_YET = "check not built yet in this session (planned, see DESIGN.md section 5)"
 NOT_APPLICABLE = {
     "C19": "no schedule, clock, fault or multi-party behaviour: a static well-formedness scan of schema literals plus an exhaustive breadth-first enumeration of reachable active sets, i.e. bounded model checking, not deterministic simulation (DESIGN.md section 6)",
